@@ -472,6 +472,21 @@ def reachable_hypotheses(ob):
     return [hs[i][0] for i in sorted(keep)]
 
 
+def guarded_check(s, timeout_ms):
+    """s.check() with a hard stop: z3's own `timeout` is not honoured in every phase (rare, load dependent); a timer
+    thread interrupts the context a few seconds after the budget (ctypes releases the GIL during the call)"""
+    import threading
+    t = threading.Timer(timeout_ms / 1000.0 + 4.0, s.ctx.interrupt)
+    t.daemon = True
+    t.start()
+    try:
+        return s.check()
+    except z3.Z3Exception:
+        return z3.unknown
+    finally:
+        t.cancel()
+
+
 def solve(eng, ob: Obligation, timeout_ms=30000, extra_axioms=(), seed=0, mbqi=False, pc=None):
     s = z3.Solver()
     s.set("timeout", timeout_ms)
@@ -493,10 +508,13 @@ def solve(eng, ob: Obligation, timeout_ms=30000, extra_axioms=(), seed=0, mbqi=F
         s.add(p if NO_PRESIMPLIFY else z3.simplify(p))
     s.add(z3.Not(ob.goal) if NO_PRESIMPLIFY else z3.simplify(z3.Not(ob.goal)))
     t0 = time.time()
-    r = s.check()
+    r = guarded_check(s, timeout_ms)
     dt = time.time() - t0
     status = "proved" if r == z3.unsat else ("sat" if r == z3.sat else "unknown")
-    reason = s.reason_unknown() if r == z3.unknown else ""
+    try:
+        reason = s.reason_unknown() if r == z3.unknown else ""
+    except z3.Z3Exception:
+        reason = "canceled"
     model = None
     if r == z3.sat:
         try:
@@ -681,14 +699,17 @@ def _verify_with(eng, key, ctx, timeout_ms, alias, override):
         status, dt, reason, model = "unknown", 0.0, "", None
         backend = "z3-" + z3.get_version_string()
         small = relevant_hypotheses(ob)
+        # budgets: on the unchanged tree every obligation is discharged within ~1.5 s (see slowest_obligations in the
+        # evidence); the quick tier (timeout_ms 15000) therefore spends at most ~50 s on an obligation that fails
+        q = timeout_ms // 3
         plan = [(min(timeout_ms, 5000), 0, False, None)]
         if small is not None:
-            plan.append((min(timeout_ms, 20000), 0, False, small))
+            plan.append((min(timeout_ms, max(q, 8000)), 0, False, small))
         reach = reachable_hypotheses(ob)
         if reach is not None:
-            plan.append((min(timeout_ms, 10000), 0, False, reach))
-            plan.append((min(timeout_ms, 10000), 0, True, reach))
-        plan += [(min(timeout_ms, 10000), 0, True, None), (min(timeout_ms, 10000), 7, False, None),
+            plan.append((min(timeout_ms, q), 0, False, reach))
+            plan.append((min(timeout_ms, q), 0, True, reach))
+        plan += [(min(timeout_ms, max(q, 8000)), 0, True, None), (min(timeout_ms, q), 7, False, None),
                  (timeout_ms, 13, True, None)]
         curtailed = unproved >= 2
         if curtailed:
